@@ -39,6 +39,15 @@ inductive MsgKind where
   | handlerNonsense
   deriving DecidableEq, Repr
 
+/-- the Python class an incoming message arrives as: the unified `JSONRPCMessage`, one of the typed
+classes (`JSONRPCRequest` / `JSONRPCNotification` / `JSONRPCResponse` / `JSONRPCError`), or what
+`parse_message` returns -/
+inductive Envelope where
+  | unified
+  | typed
+  | parsed
+  deriving DecidableEq, Repr
+
 inductive Op (ι κ ν : Type) where
   /-- `create_session(client_info, protocol_version)`; `id` is the id supply's choice -/
   | create (id : ι) (client : κ) (version : ν)
@@ -158,6 +167,15 @@ def step (cfg : Cfg κ ν) (s : Store ι κ ν) (now : Int) :
       | .noMethod => s  -- `if not method: return …` comes before the activity update
       | _ => touchOpt s sid now,  -- the update comes before handler lookup and call
      .unit)
+
+/-- `handle_message` on a message of kind `k` arriving as envelope class `e`: the dispatcher reads
+`method` and `id` through `getattr` and never looks at the class -/
+def dispatchStep (cfg : Cfg κ ν) (s : Store ι κ ν) (now : Int) (e : Envelope) (sid : Option ι) (k : MsgKind) :
+    Store ι κ ν × Out ι κ ν (Store ι κ ν) :=
+  match e with
+  | .unified => step cfg s now (.message sid k)
+  | .typed => step cfg s now (.message sid k)
+  | .parsed => step cfg s now (.message sid k)
 
 /-- a history: each operation with the clock value at which it runs -/
 abbrev Hist (ι κ ν : Type) := List (Int × Op ι κ ν)
